@@ -55,6 +55,18 @@ CHECKS = {
         "Trusted: rustc's evaluation of `E::V as i128`; Miri; the reference rule (first = 0, successor = previous + 1, range of the base type, default marker iff defaultable); duplicate discriminants unspecified here (C13).",
         "DESIGN.md §6 C08",
     ),
+    "C10": (
+        "differential build-verdict monitor over generated dependency graphs + hook-trace online checker (resolution order, progress, iteration bound) + exhaustive 3-type digraphs",
+        "Builds random dependency graphs (2-12 types, enums, 1-4 modules; pointer cycles, by-value chains and cycles through fields/arrays/bases, undefined names in every position) and all 19683 labelled digraphs on 3 types with the real pyxis and compares Ok/Err, the type list of the non-termination error, the registry and the emitted items/signatures with the reference (least fixpoint of sizeable items); the hook trace is checked online: a type resolves only after its by-value dependencies, never twice, every continuing iteration makes progress, iterations <= items+1. Exhaustive for the digraph space, sampled beyond.",
+        "Trusted: reference unresolvable-set rule (DESIGN appendix A.2); layouts valid by construction from reference sizes; hook events placed in SemanticState::build.",
+        "DESIGN.md §6 C10",
+    ),
+    "C11": (
+        "exhaustive scoping-rule monitor: emitted paths and resolved sizes vs reference binder over all import orders/subsets",
+        "For three providers of the same short name with distinct sizes, enumerates every ordered selection of type imports x module imports x interleaving x local definition x built-in name x consumer path x width (plus random sequences with repeated/bogus imports), builds with the real pyxis and compares the emitted fully qualified paths (field, pointer, array, signature, extern value) and the resolved size of the referring type with the definition the scoping rule selects; an unbound name must be rejected. Exhaustive within the stated product (thorough), strided in quick.",
+        "Trusted: reference binder refprog::Env::bind (type import last-wins, built-in, same module, module imports first-wins).",
+        "DESIGN.md §6 C11",
+    ),
     "C13": (
         "compiler-as-monitor: rustc --emit=metadata on assembled crates of generated accepted programs + nightly rustc for i686-pc-windows-msvc definitions + syn parse",
         "Assembles the emitted files of generated accepted multi-module programs (markers drawn independently of field types, cross-module references, inheritance, singletons, extern values, prologues/epilogues, dedicated marker/packed/singleton/discriminant cases) into crates mirroring the input tree with extern types supplied, and requires rustc to type-check them on the host and the definitions on i686-pc-windows-msvc. One-directional oracle: accepted => compiles. Exploration.",
@@ -84,6 +96,18 @@ CHECKS = {
         "For generated accepted programs and the complete 2^14 product of visibility and marker bits, every emitted item's visibility, derive set, packed/align repr and doc attribute lines are compared with the source item they were written on, including vftable slots and inherited/forwarded copies; generated items must be private and undocumented. Exploration (exhaustive for the product in thorough).",
         "Trusted: syn; the reference method-set model (refprog::associated) for which copies a derived type carries.",
         "DESIGN.md §6 C17",
+    ),
+    "C19": (
+        "metamorphic output monitor: bytes of the observed module's file across input sets that differ only outside its reachable closure",
+        "For generated accepted multi-module sets with an observed module M, builds variants that remove, replace or add modules outside M's import closure (same short names elsewhere and nested under M's path with vftable-bearing types, 40 filler types) and requires byte-identical files for M and its closure whenever the variant is still accepted. Exploration.",
+        "Trusted: closure computed from use paths; byte comparison.",
+        "DESIGN.md §6 C19",
+    ),
+    "C20": (
+        "metamorphic output monitor: bytes of all output files for a description and its meaning-preserving rewrites",
+        "Rewrites generated accepted descriptions with each rewrite of the listed family (explicit address already held, gap <-> address, natural #[size], natural #[index], explicit enum value, re-spelt numbers through the text path, reordered definitions), singly, at every site and in random combinations, and requires the rewritten description to be accepted with byte-identical output. Exploration.",
+        "Trusted: the reference layout supplies the addresses/sizes the description already implies (cases it cannot lay out are skipped).",
+        "DESIGN.md §6 C20",
     ),
     "C18": (
         "generated-AST print/parse round-trip monitor + rejection monitor on deliberately broken texts",
